@@ -10,9 +10,12 @@ RUNS = [("before", "own-mutants.log"), ("before", "round1-first-run.log"), ("aft
         ("before", "round3-first-run.log"), ("after", "round3-after.log"),
         ("before", "round4-c16c17-first-run.log"), ("before", "round4-c11c19-first-run.log"), ("after", "round4-after.log"),
         ("before", "round5-first-run.log"), ("after", "round5-after.log"), ("before", "round6-first-run.log"),
+        ("after", "full-regression-100-mutants.log"),
+        ("before", "round7-first-run.log"), ("before", "round8-first-run.log"), ("after", "round8-after.log"),
         # the last run over everything decides the "after" column
-        ("after", "full-regression-100-mutants.log")]
+        ("after", "full-regression-final.log")]
 OVERRIDES = {
+ "C12-r8m1": {"before": "HARNESS-ERROR (the change adds a variant to a public enum; an exhaustive match in the simulator no longer compiled)"},
  "C12-r6m2": {"checked_with": "C12", "after": "RETIRED (the code it changes was removed by fix f1bdc17)", "after_key": None},
  "C18-r6m1": {"checked_with": "C18", "after": "RETIRED (made behaviour-preserving by fix f1bdc17; the regression run rightly reports nothing)",
               "after_key": "first run: R1 create/vcf.gz first_chunk=lt_first_block base=ok got=err stage=build_genotype"},
